@@ -298,6 +298,8 @@ def h_race(t, part):
                                handler_checkpoint=True)
         w.open('e0')
         w.open('e1')
+        if part.get('bystander_refused'):
+            w.open('e2')
         sid = w.connect('e0', '/')
         sid_a = w.connect('e0', '/a')
         other = w.connect('e1', '/')
@@ -315,7 +317,19 @@ def h_race(t, part):
         if c == 'transport-loss':
             return w.eio.lose('e0', 'transport close')
         return w.s.disconnect(sid_a, namespace='/a')
-    tasks = [miniloop.create_task(cause(c), c) for c in causes]
+    if part.get('bystander_refused'):
+        # (the ready queue is FIFO and every task is ready at once, so the second cause gets an arrival of its own: an
+        # I/O wait that the scheduler completes whenever it likes - otherwise it would always have looked at the
+        # session before anything the bystander's CONNECT leads to)
+        async def late(c):
+            await miniloop.checkpoint('arrival')
+            return await cause(c)
+        log['next'] = ('false', 0)
+        tasks = [miniloop.create_task(cause(causes[0]), causes[0]),
+                 miniloop.create_task(w.eio.recv('e2', w.P(packet.CONNECT, namespace='/').encode()), 'bystander-refused'),
+                 miniloop.create_task(late(causes[1]), causes[1])]
+    else:
+        tasks = [miniloop.create_task(cause(c), c) for c in causes]
     served = []
     if part.get('bystander_event'):
         async def on_ev(sid_, *a):
@@ -324,6 +338,12 @@ def h_race(t, part):
         tasks.append(miniloop.create_task(w.eio.recv('e1', w.P(packet.EVENT, data=['ev', 1]).encode()), 'bystander-event'))
     if part.get('bystander_disconnect'):
         tasks.append(miniloop.create_task(w.eio.recv('e1', w.P(packet.DISCONNECT).encode()), 'bystander-disconnect'))
+    if part.get('bystander_refused'):
+        # a third transport asks for the same namespace meanwhile and is refused by the connect handler (the roll-back
+        # of a refusal is the one manager.disconnect() that is not preceded by pre_disconnect())
+        pass        # (its task was created among the causes above)
+    if 'pre' in part:
+        t.force(part['pre'])
     try:
         loop.drain()
     except miniloop.Deadlock as ex:
@@ -408,6 +428,8 @@ def race_parts(tier):
             for c in ('server.disconnect', 'client-DISCONNECT', 'transport-loss')]
     out += [{'causes': [c], 'always_connect': False, 'bystander_disconnect': True}
             for c in ('server.disconnect', 'client-DISCONNECT', 'transport-loss')]
+    out += [{'causes': p, 'always_connect': False, 'bystander_refused': True, 'pre': [a, b, c]} for p in pairs[:4]
+            for a in range(2) for b in range(2) for c in range(2)]
     if tier != 'quick':
         out += [{'causes': ['server.disconnect', 'client-DISCONNECT', 'transport-loss'], 'always_connect': False},
                 {'causes': ['server.disconnect', 'transport-loss', 'server.disconnect-other-namespace'], 'always_connect': False}]
